@@ -6,7 +6,8 @@
 // Oracle: an independent reference model of the registration rules (regsim.Model). After every
 // block: node-storage getters == model; raw database records == getters (in-memory view == database);
 // a fresh NewNodeStorage on the same database (restart) == getters; key-manager accounts == the
-// model's own shares. At the end: the same log under three other batchings ends in the same state.
+// model's own shares. At the end: the same log under two other batchings (all in one block; one event per
+// block or another random split) ends in the same state.
 package c11
 
 import (
@@ -69,10 +70,7 @@ type evRec struct {
 
 // runLog processes blocks on a fresh node; after(blockIdx, node) is called after each block.
 func runLog(env *regsim.Env, nums []uint64, blocks [][]*regsim.Event, withMeta bool, after func(bi int, n *regsim.Node) bool) (*regsim.Node, func(), error) {
-	db, err := regsim.NewMemDB()
-	if err != nil {
-		return nil, nil, err
-	}
+	db := env.NewMemDB()
 	closeFn := func() { _ = db.Close() }
 	n, err := env.NewNode(db, regsim.NodeOpts{})
 	if err != nil {
@@ -104,8 +102,12 @@ func runLog(env *regsim.Env, nums []uint64, blocks [][]*regsim.Event, withMeta b
 
 func run(c *evid.Case) {
 	env := c.Child.Data.(*regsim.Env)
+	if err := env.Disk.Recycle(2000); err != nil {
+		c.Inconclusive("badger: " + err.Error())
+		return
+	}
 	rng := c.Rng
-	cfg := regsim.GenCfg{MinEvents: 5, MaxEvents: 60, MalRate: 0.35, OwnBias: 0.6, DupOperatorID: true, MaxVals: 6, MaxOps: 13}
+	cfg := regsim.GenCfg{MinEvents: 5, MaxEvents: 60, MalRate: 0.35, OwnBias: 0.6, DupOperatorID: rng.Intn(100) == 0, MaxVals: 6, MaxOps: 13}
 	w, evs, err := env.Generate(rng, cfg)
 	if err != nil {
 		c.Inconclusive("generator: " + err.Error())
@@ -265,7 +267,11 @@ func run(c *evid.Case) {
 
 	// 5. batching independence
 	if !violated && final != nil {
-		for _, mode := range []string{"one-per-block", "all-in-one", "random"} {
+		modes := []string{"all-in-one", "one-per-block"}
+		if rng.Intn(2) == 0 {
+			modes[1] = "random"
+		}
+		for _, mode := range modes {
 			r2 := rand.New(rand.NewSource(rng.Int63()))
 			nu, bl := regsim.Split(r2, evs, mode, 7)
 			n2, close2, err := runLog(env, nu, bl, true, nil)
@@ -381,6 +387,11 @@ func classify(d []string, evs []*regsim.Event) (kind, sig string) {
 	sort.Strings(labels)
 	if len(labels) > 4 {
 		labels = labels[:4]
+	}
+	// a registered operator id re-used by a second OperatorAdded in the SAME block replaces the first
+	// registration (in separate blocks the second one is ignored): reported under the batching signature
+	if seen["OperatorAdded!dup-operator-id"] && !classes["share"] && !classes["recipient"] && !classes["lastblock"] {
+		return "batching-dependent-state", "duplicate-OperatorAdded-id-in-one-block-overwrites"
 	}
 	return "model-mismatch", strings.Join(cl, "+") + "/" + strings.Join(labels, ",")
 }
